@@ -76,12 +76,32 @@ func genMultiBad(args []string) error {
 				}
 				params = append(params, map[string]interface{}{"name": nm, "in": "path", "required": r.Intn(4) > 0, "type": "string"})
 			}
-			if r.Intn(3) == 0 {
-				params = append(params, map[string]interface{}{"name": "q", "in": "query", "type": "array"}) // array without items
+			if i%3 == 0 && r.Intn(3) == 0 {
+				// array without items: also a violation of the Swagger-specific schema pass, so only in a third of the documents
+				// (the others must get past the first pass when stopping early, to reach the later rules)
+				params = append(params, map[string]interface{}{"name": "q", "in": "query", "type": "array"})
 			}
 			ref := names[perm[r.Intn(k)]]
-			paths[ph] = map[string]interface{}{"get": map[string]interface{}{"operationId": opid, "parameters": params,
-				"responses": map[string]interface{}{"200": map[string]interface{}{"description": "ok", "schema": map[string]interface{}{"$ref": "#/definitions/" + ref}}}}}
+			// offenders spread over several HTTP methods (the validator ranges over a map keyed by method)
+			item := map[string]interface{}{}
+			for _, m := range [][]string{{"get"}, {"post"}, {"get", "put"}, {"delete", "post"}}[r.Intn(4)] {
+				mp := append([]interface{}{}, params...)
+				if i%3 == 0 && r.Intn(2) == 0 {
+					mp = append(mp, map[string]interface{}{"name": "arr" + m, "in": "query", "type": "array"})
+				}
+				if i%3 == 1 {
+					// offenders of the parameter rules only (the schema pass is clean): a path parameter that is not in the path,
+					// different under every method
+					mp = append(mp, map[string]interface{}{"name": "ghost" + m + fmt.Sprint(j), "in": "path", "required": true, "type": "string"})
+				}
+				id := opid
+				if m != "get" {
+					id = fmt.Sprintf("%s%s%d", opid, m, j)
+				}
+				item[m] = map[string]interface{}{"operationId": id, "parameters": mp,
+					"responses": map[string]interface{}{"200": map[string]interface{}{"description": "ok", "schema": map[string]interface{}{"$ref": "#/definitions/" + ref}}}}
+			}
+			paths[ph] = item
 		}
 		doc := map[string]interface{}{"swagger": "2.0", "info": map[string]interface{}{"title": "multi", "version": "1"}, "paths": paths, "definitions": defs}
 		b, _ := json.Marshal(doc)
